@@ -1025,6 +1025,11 @@ def dedup_strings(an, rep):
         for a in p.atoms():
             if a[1][0] == "discr" and is_call(a[1][1], "State::store_string"):
                 v = walk.atom_variant(a)
+        if v is None and p.outcome[0] == "return" and p.returns_ok():
+            # a fast path around the table (an "obviously cheap" case written directly): the reader files every string it
+            # reads, so the ids of the two sides drift apart from here on
+            R.fail(w.key, "path without the table", "a successful path does not ask the string table (store_string): what it "
+                   "writes gets an id on the reader side only")
         if v is None or p.outcome[0] != "return":
             continue
         rows.add(v)
@@ -1801,8 +1806,8 @@ def header_reader(an, rep):
             ret = strip_refs(p.outcome[1])
             inner = strip_refs(ret[4][0]) if ret[0] == "agg" else None
             if inner and inner[0] == "agg":
-                f = dict(zip(["metadata", "context", "last_index_per_chunk", "read_constructor_idx", "stored_version",
-                              "made_optional_at", "removed_fields", "inputs"], inner[4]))
+                names = [fl["name"] for a in core.items["adts"] if a["path"] == inner[2] for fl in a["variants"][0]["fields"]]
+                f = dict(zip(names, inner[4]))
                 R.check(arg_named(f.get("stored_version"), "stored_version"), b.key, "stored_version",
                         "stored_version must be the version byte passed in", None, sample={"new": "stored_version := argument"})
             break
